@@ -294,6 +294,10 @@ pub fn run_step(ws: &Ws, step: &Value) -> Value {
                 Err(e) => json!({"result": "harness_error", "msg": format!("materialise: {e}")}),
             }
         }
+        "sleep" => {
+            std::thread::sleep(std::time::Duration::from_millis(step.get("ms").and_then(Value::as_u64).unwrap_or(0)));
+            json!({"result": "ok"})
+        }
         "snap" => match tree::snapshot(&p("path")) {
             Ok(n) => json!({"result": "ok", "tree": n}),
             Err(e) => json!({"result": "harness_error", "msg": format!("{e}")}),
